@@ -136,8 +136,9 @@ CheckAndMutate(st, op) ==       \* op.hasPred, op.pred, op.tm, op.fm, op.famOrde
            evs == IF op.hasPred /\ row # NoRow
                   THEN Eval(op.pred, CellList(row, FamOrderFor(row, op.famOrder)), op.k)
                   ELSE {[err |-> FALSE, cells |-> IF row = NoRow THEN <<>> ELSE <<1>>]}
-           \* a predicate on a row that does not exist is not evaluated: invalid ones may or may not be rejected
-           lax == op.hasPred /\ row = NoRow /\ HasInvalid(op.pred)
+           \* an invalid filter somewhere in the predicate that the evaluation does not reach (row absent,
+           \* short-circuited chain, branch not taken) may or may not be rejected (DESIGN.md 5.4)
+           lax == op.hasPred /\ HasInvalid(op.pred) /\ \A ev \in evs : ~ev.err
        IN (IF lax THEN {Out(st, ErrCode(InvalidArgCode))} ELSE {}) \cup
           UNION { IF ev.err THEN {Out(st, ErrCode(InvalidArgCode))}
                   ELSE LET matched == ev.cells # <<>> IN
@@ -198,6 +199,10 @@ GcPass(st, op) ==         \* a complete pass over table op.t at clock op.now
            nr   == [k \in DOMAIN rows |-> GcRow(rows[k], fams, op.now)]
        IN {Out(WithRows(st, op.t, [k \in {x \in DOMAIN nr : nr[x] # NoRow} |-> nr[k]]), OkResp)}
 
+\* the background collector's own decision: it runs a pass only on a table that has been idle (no read,
+\* no write) for the quiescence period; on a table in active use it does nothing
+GcAuto(st, op) == IF op.idle THEN GcPass(st, op) ELSE {Out(st, OkResp)}
+
 Step(st, op) ==
   CASE op.ev = "CreateTable"   -> CreateTable(st, op)
     [] op.ev = "GetTable"      -> GetTable(st, op)
@@ -212,6 +217,7 @@ Step(st, op) ==
     [] op.ev = "ReadRows"      -> ReadRows(st, op)
     [] op.ev = "SampleRowKeys" -> SampleRowKeys(st, op)
     [] op.ev = "GcPass"        -> GcPass(st, op)
+    [] op.ev = "GcAuto"        -> GcAuto(st, op)
     [] OTHER -> {}
 
 (***************************************************************************)
